@@ -46,13 +46,14 @@ class Listener:
 
 def one(args):
     idx, bits, port = args[:3]
-    stdin_file = len(args) > 3 and args[3]
+    stdin_file = len(args) > 3 and args[3] is True
+    empty_file = len(args) > 3 and args[3] == 'emptyfile'
     f = dict(zip(NAMES, bits))
     d = tempfile.mkdtemp(prefix='c18_')
     try:
         open(os.path.join(d, 'in.log'), 'wb').write(LINE)
         argv = [CLI, 'redact']
-        if f['file']: argv.append('in.log')
+        if f['file']: argv.append('' if empty_file else 'in.log')
         if f['out']: argv += ['-o', 'out.log']
         if f['encrypt']: argv += ['--encrypt', '-q', 'key.file']
         if f['regexp']: argv += ['-z', '^a$']
@@ -91,7 +92,28 @@ def run(chk, replay=None):
     sub_combos = [(i, bits) for i, bits in enumerate(combos) if bits[1]]
     with ThreadPoolExecutor(max_workers=16) as ex:
         results_f = list(ex.map(one, [(100000 + i, bits, lst.port, True) for i, bits in sub_combos]))
+    # ... and the combinations that name a file once more with the file argument given as the EMPTY string: it is still a file argument
+    # (one of the sources), so the verdict must be the same; an accepted job then fails at run time on the missing file, which is not a rejection
+    file_combos = [(i, bits) for i, bits in enumerate(combos) if bits[0]]
+    with ThreadPoolExecutor(max_workers=16) as ex:
+        results_e = list(ex.map(one, [(200000 + i, bits, lst.port, 'emptyfile') for i, bits in file_combos]))
     import time; time.sleep(0.5); lst.stop = True
+    for (idx, rc, so, se, files), (i, bits) in zip(results_e, file_combos):
+        f = dict(zip(NAMES, bits))
+        chk.count(); chk.nontriv((bits, 'emptyfile'))
+        exp = rule(f)
+        net = lst.hits.get('run%d' % idx, 0)
+        validation_error = rc == 1 and se.startswith(b'Error:')
+        effects = sorted(({'out'} if ('out.log' in files or any(x.startswith('out.log.') for x in files)) else set()) | ({'key'} if 'key.file' in files else set()) | ({'net'} if net else set()))
+        case = {'flags': [n for n in NAMES if f[n]], 'file_argument': '(empty string)', 'rc': rc, 'stderr': se.decode('utf-8', 'replace'), 'files': files, 'network_attempts': net}
+        if rc not in (0, 1): chk.violate('unexpected exit status (crash?)', case, tags=['status', 'emptyfile'])
+        elif exp is None:
+            if not validation_error: chk.violate('ill-defined combination accepted (file argument given as the empty string)', case, tags=['accepted', 'emptyfile'])
+            if effects: chk.violate('rejection decided from the flags had side effects: %s' % effects, case, tags=['sideeffect', 'emptyfile'] + effects)
+        elif validation_error:
+            chk.violate('well-defined combination refused (file argument given as the empty string)', case, tags=['refused', 'emptyfile'])
+        elif net:
+            chk.violate('a local job sent a network request', case, tags=['net', 'emptyfile'])
     triples = list(zip(results, combos, model)) + [(r, bits, model[i]) for r, (i, bits) in zip(results_f, sub_combos)]
     for (idx, rc, so, se, files), bits, m in triples:
         f = dict(zip(NAMES, bits))
@@ -125,6 +147,7 @@ def run(chk, replay=None):
     chk.dist('accepted_by_rule', acc); chk.dist('rejected_by_rule', len(combos) - acc)
     chk.streams.append({'stream': 'all 8192 combinations: CLI vs extracted decide/effects vs independent rule table', 'cases': len(combos)})
     chk.streams.append({'stream': 'the 4096 combinations with stdin input again, stdin redirected from a regular file', 'cases': len(sub_combos)})
+    chk.streams.append({'stream': 'the 4096 combinations with a file argument again, the argument being the empty string', 'cases': len(file_combos)})
     chk.sample({'flags': ['file', 'out', 'encrypt'], 'expected': 'accept:file'}); chk.sample({'flags': ['start', 'end', 'out', 'env'], 'expected': 'reject (Atlas without project/cluster)'})
-    chk.assumptions += ["presence/absence only: flag VALUES (empty strings, zero dates, -q '') are not enumerated", "cobra/pflag parsing is not modelled",
+    chk.assumptions += ["presence/absence only, plus the empty string as the file argument: other flag VALUES (empty flag values, zero dates, -q '') are not enumerated", "cobra/pflag parsing is not modelled",
                         "runtime failures after validation (unreachable Atlas endpoint, unreadable input) are not rejections 'decided from the flags'"]
